@@ -125,7 +125,14 @@ func checkLedger(own, tier string) int {
 	if nh > 0 {
 		drained = tierN(tier, 2, 8)
 	}
-	parallel(nh+drained, 8, func(i int) {
+	// ... and (C03) histories of nothing but native transfers and plain EVM transfers between the same accounts,
+	// with mempool-only traffic of those accounts arriving meanwhile: every account's change is predicted
+	// exactly from the executed transactions, so a credit that is lost again inside a block shows as well
+	plain := 0
+	if nh > 0 && own == "C03" {
+		plain = tierN(tier, 2, 8)
+	}
+	parallel(nh+drained+plain, 8, func(i int) {
 		hseed := seed*1000 + int64(i)
 		fr := int64(1)
 		if i%3 == 1 && i < nh {
@@ -140,6 +147,10 @@ func checkLedger(own, tier string) int {
 			cfg.Scripts = []string{"delegation-drain", "transfers", "valrewards"}
 			cfg.Jumps = i%2 == 1
 		}
+		if i >= nh+drained {
+			cfg.Scripts = []string{"olvm-mixed"}
+			cfg.Stray, cfg.Jumps, cfg.Absents = true, false, false
+		}
 		cfg.OnBlock = func(run *hist.Runner, blk *hist.Block) bool {
 			changed := len(blk.Txs) > 0
 			r.Case(fmt.Sprintf("%d/%d/%s", hseed, blk.H, blk.Commit.AppHash), changed)
@@ -147,6 +158,16 @@ func checkLedger(own, tier string) int {
 			for _, t := range blk.Txs {
 				if t.Call.Code == 0 {
 					r.Count("ok:"+t.Kind, 1)
+				}
+			}
+			if i >= nh+drained {
+				for _, f := range mon.SimpleBlock(blk) {
+					if f.Prop == "COUNT" {
+						r.Count("plain-transfer-blocks-accounted-exactly", 1)
+						continue
+					}
+					r.Violate(verdict.Violation{Property: "C03", Signature: "C03/exact-accounting/" + strings.TrimPrefix(f.Sig, "C17/"), What: fmt.Sprintf("history seed %d: %s", hseed, f.What), Witness: map[string]interface{}{"seed": hseed, "height": blk.H, "txs": sampleTxs(blk), "recipes": run.Recipes()}})
+					return true
 				}
 			}
 			return lm.onBlock(run, blk)
